@@ -144,6 +144,23 @@ def check_case(root, spec, fpat, epat, names, out, case_extra=None):
         out.violation(dict(case, problem='get_skipped() is not visited - returned', skipped=sk, visited=visited, returned=len(got)),
                       bucket=('skipped',))
         return None
+    # the same object asked again (match() after match(), then after a partly consumed imatch()): the same files, and the skipped count is
+    # that of the last run, not a running total
+    try:
+        with util.watchdog(15), util.ScandirCounter(6000):
+            again = [os.path.relpath(p_, root) for p_ in w.match()]
+            sk_again = w.get_skipped()
+            it_ = w.imatch()
+            next(it_, None)
+            third = [os.path.relpath(p_, root) for p_ in w.match()]
+            sk_third = w.get_skipped()
+        out.evaluations += 2
+        if collections.Counter(again) != collections.Counter(got) or sk_again != sk or collections.Counter(third) != collections.Counter(got) or sk_third != sk:
+            out.violation(dict(case, problem='a second run of the same WcMatch object gives another result or another skipped count',
+                               skipped=[sk, sk_again, sk_third], returned=[len(got), len(again), len(third)]), bucket=('rerun',))
+            return None
+    except util.HarnessBudget:
+        out.stats['budget_skipped'] += 1
     # anchoring: under FILEPATHNAME / DIRPATHNAME a piece written with a leading separator is "a normal path pattern that is anchored to the
     # base path" (docs, MATCHBASE section): with every piece anchored the result is the one of the unanchored text without MATCHBASE
     fp_on, dp_on = 'FILEPATHNAME' in names and bool(fpat), 'DIRPATHNAME' in names and bool(epat)
